@@ -497,6 +497,9 @@ class NetworkGraph(AbstractBaseIR):
             inputs = self[f"{node}/{succ}"]['inputs']
             if var not in inputs:
                 inputs[var] = {'sources': {op}}
+            for inp in inputs.values():
+                if op in inp['sources'] and 'node' not in inp and not isinstance(inp.get('var'), str):
+                    inp.setdefault('var', {}).setdefault(op, var)
 
         # Point the edge at the buffered source variable
         self.edges[s, t, e]['source_var'] = f"{op}/{buf_out}"
@@ -727,11 +730,15 @@ class NetworkGraph(AbstractBaseIR):
         op_info['variables'].update(var_dict)
         op_info['output'] = f"{var}_buffered{buffer_id}"
 
-        # update input information of node operators connected to this operator
+        # update input information of node operators connected to this operator: they keep reading the variable itself,
+        # not the delayed copy that is now the output of the operator
         for succ in node_ir.op_graph.succ[op]:
             inputs = self[f"{node}/{succ}"]['inputs']
             if var not in inputs.keys():
                 inputs[var] = {'sources': {op}}
+            for inp in inputs.values():
+                if op in inp['sources'] and 'node' not in inp and not isinstance(inp.get('var'), str):
+                    inp.setdefault('var', {}).setdefault(op, var)
 
         # update edge information
         idx_l = 0
@@ -1598,7 +1605,9 @@ class CircuitIR(AbstractBaseIR):
                     for i, in_op in enumerate(inp['sources']):
 
                         # collect single input to op
-                        in_var = in_var_tmp if in_var_tmp else graph[f"{in_node}/{in_op}"]['output']
+                        # (the variable to read may be given for all sources or per source operator)
+                        in_var = in_var_tmp.get(in_op) if isinstance(in_var_tmp, dict) else in_var_tmp
+                        in_var = in_var if in_var else graph[f"{in_node}/{in_op}"]['output']
                         in_key = f"{in_node}/{in_op}/{in_var}"
                         try:
                             in_val = self._front_to_back[in_key]
